@@ -13,6 +13,8 @@ requests
   fe   hasP P shape(0: (V), 1: (T,V)) nt nv vol[nv] el[nv | nt·nv] fph[nt·nv]   → nt·nv energies (eV)
   fd   hastmax tmax nt T[nt] n V[n] G[n] B[n] cvAtV[n]
        → num_elems len  beta[len] cp[len] gamma[len]      (rejects if n ≠ num_elems)
+  cpfit n T[n] V[n] cvcoef[n·5] scoef[n·5]           → len  cp_polyfit[len] dsdv[len]     (n = num_elems fitted points)
+  bulkgpa n B0[n]                                     → B0·EVAngstromToGPa
 -/
 
 def fl? (c : Cur) : Option (Float × Cur) := do
@@ -98,6 +100,26 @@ def handle (line : String) : String :=
         gruneisen ThermalC.EvTokJmol_f ThermalC.EVAngstromToGPa_f 1000.0 1e-10 i.1
           (beta.getD i.1 0) (bs.getD i.1 0) (cvs.getD i.1 0) (V i.1)
       pure (toString num ++ " " ++ toString len ++ " " ++ showFs (beta ++ cp ++ gam))
+    | "cpfit" =>
+      let (n, c) ← c.nat?
+      let (ts, c) ← fls? c n
+      let (vs, c) ← fls? c n
+      let (cvc, c) ← fls? c (n * 5)
+      let (sc, c) ← fls? c (n * 5)
+      if !c.atEnd then none
+      let len := outLen n
+      let T : Nat → Float := fun k => ts.getD k 0
+      let V : Nat → Float := fun k => vs.getD k 0
+      let cvf : Nat → Fin 5 → Float := fun j m => cvc.getD (j * 5 + m.1) 0
+      let scf : Nat → Fin 5 → Float := fun j m => sc.getD (j * 5 + m.1) 0
+      let cp : Array Float := Array.ofFn (n := len) fun i => cpPolyfit T V cvf scf i.1
+      let ds : Array Float := Array.ofFn (n := len) fun i => dsdv V scf i.1
+      pure (toString len ++ " " ++ showFs (cp ++ ds))
+    | "bulkgpa" =>
+      let (n, c) ← c.nat?
+      let (bs, c) ← fls? c n
+      if !c.atEnd then none
+      pure (showFs (bs.map (bulkGPa ThermalC.EVAngstromToGPa_f)))
     | _ => none
   r.getD "bad-op"
 
